@@ -20,10 +20,6 @@ Definition bounds_all (P : fl -> bool) (b : bounds) : bool :=
 Definition args_finite (ep : endpoint) : bool :=
   match ep with Map b _ | Notes b _ => bounds_all finite b | _ => true end.
 
-(* outside the known-finding class: six decimals carry every bbox coordinate *)
-Definition bbox_six_decimals (ep : endpoint) : bool :=
-  match ep with Map b _ | Notes b _ => bounds_all six_decimals_suffice b | _ => true end.
-
 (* ---------- pieces ---------- *)
 
 Definition piece_ok (strict : bool) (p : str) (kq : str * qval) : Prop :=
@@ -142,8 +138,8 @@ Proof.
   intros d H. destruct (digit_cases d H) as [?|[?|[?|[?|[?|[?|[?|[?|[?|?]]]]]]]]]; subst d; reflexivity.
 Qed.
 
-Lemma fmt_f_coord_chars x : finite x = true -> forallb coord_char (fmt_f x) = true.
-Proof. intros H. apply fmt_f_all; [exact H|exact coord_char_on_digits|reflexivity|reflexivity]. Qed.
+Lemma coord_text_chars x : finite x = true -> forallb coord_char (coord_text x) = true.
+Proof. intros H. apply coord_text_all; [exact H|exact coord_char_on_digits|reflexivity|reflexivity]. Qed.
 
 Lemma coord_chars_clean s : forallb coord_char s = true -> clean s = true.
 Proof.
@@ -162,20 +158,13 @@ Qed.
 
 Lemma bbox_value_ok strict b :
   bounds_all finite b = true ->
-  (strict = true -> bounds_all six_decimals_suffice b = true) ->
   clean (bbox_value b) = true /\ bbox_text_ok strict b (bbox_value b) = true.
 Proof.
-  unfold bounds_all. intros Hf Hs.
+  unfold bounds_all. intros Hf.
   apply andb_true_iff in Hf as [Hf H4]. apply andb_true_iff in Hf as [Hf H3].
   apply andb_true_iff in Hf as [H1 H2].
-  assert (Hs' : strict = true ->
-    six_decimals_suffice (MinLon b) = true /\ six_decimals_suffice (MinLat b) = true /\
-    six_decimals_suffice (MaxLon b) = true /\ six_decimals_suffice (MaxLat b) = true).
-  { intros E. specialize (Hs E).
-    apply andb_true_iff in Hs as [Hs S4]. apply andb_true_iff in Hs as [Hs S3].
-    apply andb_true_iff in Hs as [S1 S2]. auto. }
-  pose proof (fmt_f_coord_chars _ H1) as C1. pose proof (fmt_f_coord_chars _ H2) as C2.
-  pose proof (fmt_f_coord_chars _ H3) as C3. pose proof (fmt_f_coord_chars _ H4) as C4.
+  pose proof (coord_text_chars _ H1) as C1. pose proof (coord_text_chars _ H2) as C2.
+  pose proof (coord_text_chars _ H3) as C3. pose proof (coord_text_chars _ H4) as C4.
   split.
   - unfold bbox_value. rewrite !clean_app.
     rewrite (coord_chars_clean _ C1), (coord_chars_clean _ C2), (coord_chars_clean _ C3),
@@ -186,15 +175,14 @@ Proof.
     rewrite (split_on_app _ _ _ (coord_chars_nocomma _ C2)).
     rewrite (split_on_app _ _ _ (coord_chars_nocomma _ C3)).
     rewrite (split_on_none _ _ (coord_chars_nocomma _ C4)).
-    rewrite !fmt_f_coord_ok; try assumption; try reflexivity; intros E; apply (Hs' E).
+    rewrite !coord_text_faithful by assumption. reflexivity.
 Qed.
 
 Lemma bbox_piece_ok strict b :
   bounds_all finite b = true ->
-  (strict = true -> bounds_all six_decimals_suffice b = true) ->
   piece_ok strict (bbox_piece b) (lit "bbox", QBBox b).
 Proof.
-  intros Hf Hs. destruct (bbox_value_ok strict b Hf Hs) as [Hc Hok].
+  intros Hf. destruct (bbox_value_ok strict b Hf) as [Hc Hok].
   apply (kv_piece strict (lit "bbox") (bbox_value b) (bbox_value b)); try reflexivity; try discriminate.
   - apply clean_no_amp, Hc.
   - apply clean_unescape, Hc.
@@ -219,13 +207,13 @@ Qed.
 (* ---------- the query of every call ---------- *)
 
 Lemma explicit_query_ok strict ep :
-  args_finite ep = true -> (strict = true -> bbox_six_decimals ep = true) ->
+  args_finite ep = true ->
   match explicit_query ep with
   | None => spec_query ep = []
   | Some q => exists kvs, decode_query q = Some kvs /\ query_ok strict (spec_query ep) kvs = true
   end.
 Proof.
-  intros Hf Hs.
+  intros Hf.
   destruct ep as [e id o|e ids o|e id v|e id|id o|e id o|e id o|b o|id|id|id|id|b os|q os|id];
     cbn [explicit_query spec_query]; try reflexivity.
   - apply decode_join, at_pieces_ok.
@@ -255,11 +243,10 @@ Qed.
 
 Lemma std_url_ok strict cfg ep :
   base_ok cfg = true -> args_finite ep = true ->
-  (strict = true -> bbox_six_decimals ep = true) ->
   request_ok_at strict cfg ep (explicit_url_std cfg ep) = true.
 Proof.
-  intros Hb Hf Hs. unfold request_ok_at, explicit_url_std.
-  pose proof (explicit_query_ok strict ep Hf Hs) as Hq.
+  intros Hb Hf. unfold request_ok_at, explicit_url_std.
+  pose proof (explicit_query_ok strict ep Hf) as Hq.
   destruct (explicit_query ep) as [q|].
   - rewrite app_assoc, (split_target_query _ _ (base_path_noq cfg ep Hb)).
     rewrite base_url_spec, str_eqb_refl. cbn [andb].
@@ -270,11 +257,10 @@ Qed.
 
 (* the shape without a dangling '?' / '&' when no feature option is given *)
 Lemma alt_url_ok strict cfg ep :
-  base_ok cfg = true -> args_finite ep = true ->
-  (strict = true -> bbox_six_decimals ep = true) -> no_fopts ep = true ->
+  base_ok cfg = true -> args_finite ep = true -> no_fopts ep = true ->
   request_ok_at strict cfg ep (alt_url cfg ep) = true.
 Proof.
-  intros Hb Hf Hs Hn. unfold request_ok_at, alt_url.
+  intros Hb Hf Hn. unfold request_ok_at, alt_url.
   assert (Hcore : match core_query ep with
                   | None => spec_query ep = []
                   | Some q => exists kvs, decode_query q = Some kvs /\
@@ -300,10 +286,9 @@ Qed.
 
 Lemma explicit_url_ok strict cfg ep :
   base_ok cfg = true -> options_valid ep = true -> args_finite ep = true ->
-  (strict = true -> bbox_six_decimals ep = true) ->
   request_ok_at strict cfg ep (explicit_url cfg ep) = true.
 Proof.
-  intros Hb Hv Hf Hs. unfold explicit_url.
+  intros Hb Hv Hf. unfold explicit_url.
   destruct (url_of_shape cfg ep Hv) as [H|[Hn H]]; rewrite H.
   - apply std_url_ok; assumption.
   - apply alt_url_ok; assumption.
@@ -312,27 +297,10 @@ Qed.
 (* url_matches_spec: for every call, all ids, id lists, option lists, queries and bases *)
 Lemma url_matches_spec_at strict cfg ep :
   base_ok cfg = true -> options_valid ep = true -> args_finite ep = true ->
-  (strict = true -> bbox_six_decimals ep = true) ->
   exists u, url_of cfg ep = Ok u /\ request_ok_at strict cfg ep u = true.
 Proof.
-  intros Hb Hv Hf Hs. exists (explicit_url cfg ep). split.
+  intros Hb Hv Hf. exists (explicit_url cfg ep). split.
   - apply url_of_explicit, Hv.
   - apply explicit_url_ok; assumption.
 Qed.
 
-(* the statement without the six-decimals hypothesis is false of the code: the known finding *)
-Definition witness_bounds : bounds :=
-  (* MaxLat = 1.1234564 (nearest float64): 5059597824406999 * 2^-52 *)
-  let c z := {| f_class := 0; f_neg := false; f_m := z; f_e := 0 |} in
-  {| MinLon := c 1; MinLat := c 2; MaxLon := c 3;
-     MaxLat := {| f_class := 0; f_neg := false; f_m := 5059597824406999; f_e := -52 |} |}.
-
-Lemma url_matches_spec_strict_refuted :
-  exists cfg ep u,
-    base_ok cfg = true /\ options_valid ep = true /\ args_finite ep = true /\
-    url_of cfg ep = Ok u /\ request_ok cfg ep u = false.
-Proof.
-  exists (lit "http://osm.test"), (Notes witness_bounds []),
-    (lit "http://osm.test/notes?bbox=1.000000,2.000000,3.000000,1.123456").
-  repeat split; vm_compute; reflexivity.
-Qed.
